@@ -27,7 +27,7 @@ RULE = ('a case = one operation history (sequence of mutators with full observat
         'at least one probe lookup succeeded')
 ASSUMPTIONS = ['values are ints/None/lists/plain dicts/lists of dotdicts (strings are avoided as values: indexing a str with [i] legitimately succeeds)',
                'paths use integer indexes only; trailing dots are not generated']
-REQUIRED = ['op:set:accepted', 'op:set:refused', 'op:del:accepted', 'op:del:refused-nonempty-level', 'op:pop:accepted',
+REQUIRED = ['value:existing-level-assigned-again', 'op:set:accepted', 'op:set:refused', 'op:del:accepted', 'op:del:refused-nonempty-level', 'op:pop:accepted',
             'reserved:leaf', 'reserved:interior', 'path:dotdot', 'path:indexed', 'path:leading-dot', 'iter:list-of-levels',
             'copy:copy', 'copy:deepcopy', 'value:plain-dict-converted', 'form:attribute', 'form:index-chain', 'monitor:tree-compare',
             'monitor:iteration', 'monitor:lookup']
@@ -121,9 +121,13 @@ def m_get(root, segs):
     return cur
 
 
-def m_value(spec):
+def m_value(spec, root=None):
     """Build the model value for a value spec; plain dicts become levels via sequential path assignment."""
     kind = spec[0]
+    if kind == 'ref':
+        # the object already stored at another path (a level obtained by lookup and assigned a second time): the SAME object, so
+        # that later changes through either path are seen through both, as in the real tree
+        return m_get(root, tokens(spec[1]))
     if kind == 'int':
         return spec[1]
     if kind == 'none':
@@ -172,7 +176,7 @@ def m_set(root, segs, spec):
             raise Refused('not a level')
         cur = nxt
     name, idx = segs[-1]
-    val = m_value(spec)             # may raise Refused (reserved key inside a plain dict)
+    val = m_value(spec, root)       # may raise Refused (reserved key inside a plain dict)
     if idx is None:
         if is_reserved(name):
             raise Refused('reserved leaf')
@@ -353,6 +357,13 @@ class History:
                     m_set(self.model, tokens(k), v)
             exp = self._model_do(mupd)
             got = self._real_do(lambda: self.real.update(r_value(spec, self.dotdict)))
+            self._compare_outcome(step, op, exp, got, before)
+        elif kind == 'alias':
+            dst, src = op[1], op[2]
+            exp = self._model_do(lambda: m_set(self.model, tokens(dst), ('ref', src)))
+            got = self._real_do(lambda: self.real.__setitem__(dst, self.real[src]))
+            if exp[0] == 'ok':
+                ctx.count('value:existing-level-assigned-again')
             self._compare_outcome(step, op, exp, got, before)
         elif kind in ('copy', 'deepcopy'):
             self._copy_check(step, op)
@@ -728,9 +739,22 @@ def rand_history(rng, n):
     """Generates operations against a scratch model so that paths relate to the evolving tree."""
     model = {}
     ops = []
+    aliased = False
     for _ in range(n):
         r = rng.random()
         p = rand_path(rng, model)
+        if rng.random() < 0.06:
+            # a level that exists, assigned a second time under a new top-level name (the same object at two paths)
+            levels = sorted(set(q.rsplit('.', 1)[0] for q in m_paths(model) if '.' in q and '[' not in q and not q.startswith('al')))
+            if levels:
+                op = ('alias', 'al%d' % rng.randrange(3), rng.choice(levels))
+                ops.append(op)
+                aliased = True
+                try:
+                    m_set(model, tokens(op[1]), ('ref', op[2]))
+                except (Refused, Either, AssertionError, ValueError):
+                    pass
+                continue
         simple = all(s.isidentifier() for s in p.split('.'))
         if r < 0.45:
             kind = 'set'
@@ -755,6 +779,8 @@ def rand_history(rng, n):
             while v[0] != 'dict':
                 v = rand_value(rng)
             op = ('update', v)
+        elif aliased:
+            op = ('set', p, rand_value(rng))          # copies of trees with shared levels are not modelled
         elif r < 0.93:
             op = ('copy', rand_path(rng, model, False), rand_value(rng))
         else:
